@@ -47,6 +47,9 @@ def cases(w: K.Wire) -> list[tuple]:
     out.append(("never-filled-slot", "implicit name id (0 = last+1) pointing at an empty slot", 1, {}, _entries(w) + [_good_triple(w)], [trip(s_iri=_iri(w, 1, 0), p_bnode=bn["p_bnode"], o_bnode=bn["o_bnode"])], "pyjelly.parse.lookup.LookupDecoder.at"))
     out.append(("datatype-zero", "literal with the datatype field present and id 0", 1, {}, _entries(w) + [_good_triple(w)], [trip(s_bnode=bn["s_bnode"], p_bnode=bn["p_bnode"], o_literal=w.msg("RdfLiteral", lex="x", datatype=0))], "pyjelly.parse.lookup.LookupDecoder.decode_datatype_term_index"))
     out.append(("datatype-while-disabled", "literal with datatype id 1 while max_datatype_table_size=0", 1, {"datatypes": 0}, [trip(**bn)], [trip(s_bnode=bn["s_bnode"], p_bnode=bn["p_bnode"], o_literal=w.msg("RdfLiteral", lex="x", datatype=1))], "pyjelly.parse.decode.Decoder.decode_literal"))
+    name_only = [w.msg("RdfStreamRow", name=w.msg("RdfNameEntry", id=0, value=sstr(Atom("whole.iri1"))))]
+    out.append(("prefix-while-disabled", "IRI with prefix_id 1 while max_prefix_table_size=0", 1, {"prefixes": 0}, name_only + [trip(s_iri=_iri(w, 0, 1), p_bnode=bn["p_bnode"], o_bnode=bn["o_bnode"])], [trip(s_iri=_iri(w, 1, 1), p_bnode=bn["p_bnode"], o_bnode=bn["o_bnode"])], "pyjelly.parse.decode.Decoder.decode_iri_string"))
+    out.append(("prefix-while-disabled", "prefix entry row while max_prefix_table_size=0", 1, {"prefixes": 0}, name_only, [w.msg("RdfStreamRow", prefix=w.msg("RdfPrefixEntry", id=1, value=sstr(Atom("p")))), trip(**bn)], "pyjelly.parse.lookup.LookupDecoder.assign_entry"))
     out.append(("repeated-term-no-previous", "first triple without a subject", 1, {}, [], [trip(p_bnode=bn["p_bnode"], o_bnode=bn["o_bnode"])], "pyjelly.parse.decode.Decoder.decode_statement"))
     out.append(("repeated-term-no-previous", "first quad without a graph", 2, {}, [], [w.msg("RdfStreamRow", quad=w.msg("RdfQuad", **bn))], "pyjelly.parse.decode.Decoder.decode_statement"))
     out.append(("repeated-term-in-quoted-triple", "quoted triple with an empty object", 1, {}, [trip(**bn)], [trip(s_bnode=bn["s_bnode"], p_bnode=bn["p_bnode"], o_triple_term=w.msg("RdfTriple", s_bnode=bn["s_bnode"], p_bnode=bn["p_bnode"]))], "pyjelly.parse.decode.Decoder.decode_quoted_triple"))
